@@ -114,6 +114,38 @@ Theorem c19_code_uses_within_model_flows :
 Proof. exact gen_uses_within_model_flows. Qed.
 Print Assumptions c19_code_uses_within_model_flows.
 
+(* The schema stage (config.rs load_effective_config): a merged document that is valid JSON of the wrong SHAPE - a string
+   where the header map is expected, an unquoted numeric token, a provider without its id level - is dropped whole and
+   silently; serde's type error QUOTES the offending scalar, which may be the secret.  The whole diagnostic report
+   (`sources[*].error` texts + summary) depends on the world only through its low projection, in which the scalar at the
+   mis-shaped position is erased as well. *)
+Theorem c19_doctor_report_noninterference : forall w1 w2 : world,
+  low_world w1 = low_world w2 -> doctor_report w1 = doctor_report w2.
+Proof. exact doctor_report_noninterference. Qed.
+Print Assumptions c19_doctor_report_noninterference.
+
+(* Why the schema error must stay dropped (or be reported without the serde text): surfaced through the per-source report
+   with the `error: Some(err.to_string())` idiom of the neighbouring parse-error branch it would make the diagnostic depend
+   on the secret.  `source_errors_surfaced` is NOT what the code does; the statement is the justification of the T1 taint
+   rule "an error produced by deserialising secret-bearing configuration is secret-tainted". *)
+Theorem c19_surfaced_schema_error_refuted : ~ surfaced_noninterference.
+Proof. exact surfaced_noninterference_refuted. Qed.
+Print Assumptions c19_surfaced_schema_error_refuted.
+
+Theorem c19_surfaced_schema_error_quotes_scalar : forall (q : str) (w : world), w_misfit w = Some q ->
+  exists a b, source_errors_surfaced w = [a ++ q ++ b].
+Proof. exact surfaced_quotes_the_scalar. Qed.
+Print Assumptions c19_surfaced_schema_error_quotes_scalar.
+
+(* Non-vacuity of the schema stage: two misfit worlds that differ in the secret at the offending position have the same
+   low projection; the report has no error text and the summary is the env-only resolution (every layer dropped). *)
+Example c19_misfit_worlds_low_equal : low_world (misfit_world misfit_q1) = low_world (misfit_world misfit_q2).
+Proof. exact misfit_low_equal. Qed.
+Example c19_misfit_report :
+  doctor_report (misfit_world misfit_q1)
+  = ([], Some (mkDoctor None None (lit "http://127.0.0.1:9/v1/responses") None false None [] false false None)).
+Proof. exact misfit_doctor. Qed.
+
 (* Non-vacuity: two worlds with different keys / header values / env values have the same low
    projection; in both the secret DOES leave the process — in the outgoing request only. *)
 Example c19_example_low_equal :
